@@ -282,7 +282,9 @@ fn bulk_rank1_avx512(bit_data: &[u64], positions: &[usize], chunk_size: usize) -
         let bit_offset = pos % 64;
 
         if word_index >= bit_data.len() {
-            results.push(0);
+            // at or past the end every bit precedes the position: the rank is the total
+            // number of ones (it is NOT zero)
+            results.push(bit_data.iter().map(|w| w.count_ones() as usize).sum());
             continue;
         }
 
@@ -342,7 +344,9 @@ fn bulk_rank1_avx2(bit_data: &[u64], positions: &[usize], _chunk_size: usize) ->
         let bit_offset = pos % 64;
 
         if word_index >= bit_data.len() {
-            results.push(0);
+            // at or past the end every bit precedes the position: the rank is the total
+            // number of ones (it is NOT zero)
+            results.push(bit_data.iter().map(|w| w.count_ones() as usize).sum());
             continue;
         }
 
@@ -414,7 +418,9 @@ fn bulk_rank1_popcnt(bit_data: &[u64], positions: &[usize], use_prefetch: bool) 
         let bit_offset = pos % 64;
 
         if word_index >= bit_data.len() {
-            results.push(0);
+            // at or past the end every bit precedes the position: the rank is the total
+            // number of ones (it is NOT zero)
+            results.push(bit_data.iter().map(|w| w.count_ones() as usize).sum());
             continue;
         }
 
@@ -501,8 +507,10 @@ fn bulk_select1_bmi2(bit_data: &[u64], indices: &[usize]) -> Result<Vec<usize>> 
             let word = bit_data[word_idx];
 
             unsafe {
-                // Use PDEP to extract the nth set bit position
-                let mask = (1u64 << remaining_rank) - 1;
+                // Use PDEP to extract the nth set bit position: deposit a single bit at the
+                // place of the `remaining_rank`-th one (a mask of the low n bits would select
+                // the FIRST one of the word, and overflows for n == 64)
+                let mask = 1u64 << (remaining_rank - 1);
                 let selected_bits = _pdep_u64(mask, word);
 
                 if selected_bits != 0 {
@@ -666,7 +674,9 @@ fn bulk_rank1_neon(bit_data: &[u64], positions: &[usize]) -> Vec<usize> {
         let bit_offset = pos % 64;
 
         if word_index >= bit_data.len() {
-            results.push(0);
+            // at or past the end every bit precedes the position: the rank is the total
+            // number of ones (it is NOT zero)
+            results.push(bit_data.iter().map(|w| w.count_ones() as usize).sum());
             continue;
         }
 
@@ -768,7 +778,9 @@ fn bulk_rank1_scalar(bit_data: &[u64], positions: &[usize]) -> Vec<usize> {
         let bit_offset = pos % 64;
 
         if word_index >= bit_data.len() {
-            results.push(0);
+            // at or past the end every bit precedes the position: the rank is the total
+            // number of ones (it is NOT zero)
+            results.push(bit_data.iter().map(|w| w.count_ones() as usize).sum());
             continue;
         }
 
